@@ -126,6 +126,16 @@ func pairScenario(q, p []string) *Scenario {
 		}
 		ops = append(ops, Op{Kind: "notify", Prefix: p[:k], Notif: n, Spare: k % 3})
 	}
+	// the same splits as ATOMIC notifications: the path alone, and together with a second member
+	// below it (whether the notification is offered must not depend on the flag, nor on where the
+	// prefix ends; the oracle is the one of every other notify op)
+	for k := 0; k <= len(p); k++ {
+		n := &Notif{Atomic: true, Updates: []GPath{entry(p[k:])}}
+		if k%2 == 1 {
+			n.Updates = append(n.Updates, entry(append(clonePath(p[k:]), "a")))
+		}
+		ops = append(ops, Op{Kind: "notify", Prefix: p[:k], Notif: n, Spare: (k + 1) % 3})
+	}
 	ops = append(ops,
 		Op{Kind: "remove", Reg: 0},
 		Op{Kind: "update", Path: p},
@@ -154,6 +164,7 @@ func tripleScenario(q1, q2, p []string) *Scenario {
 	}
 	if len(p) > 0 {
 		ops = append(ops, Op{Kind: "notify", Prefix: p[:1], Notif: &Notif{Updates: []GPath{entry(p[1:])}}, Spare: 2})
+		ops = append(ops, Op{Kind: "notify", Prefix: p[:1], Notif: &Notif{Atomic: true, Updates: []GPath{entry(p[1:]), entry(p[1:])}}, Spare: 1})
 	}
 	ops = append(ops,
 		Op{Kind: "remove", Reg: 0},
@@ -503,6 +514,14 @@ func replayOne(t *testing.T, rf *vstat.ReplayFile) string {
 			if _, err := runConc(&sc); err != nil {
 				return err.Error()
 			}
+		}
+	case rf.Part == "atomic":
+		var sc SrvScenario
+		if err := json.Unmarshal(rf.Scenario, &sc); err != nil {
+			return "bad scenario: " + err.Error()
+		}
+		if _, err := runAtomic(t, &sc, nil); err != nil {
+			return err.Error()
 		}
 	case rf.Part == "server":
 		var sc SrvScenario
